@@ -467,6 +467,13 @@ pub fn run_c08(out: &mut Out, tier: &str, seed: u64) {
     for l in ["01", "1.", ".5", "1e", "-", "+1", "1e+", "0x10", "1_0", " 1", "1 ", "NaN", "Infinity", "", "--1", "1.e1", "1ee1"] {
         lits.push(l.to_string());
     }
+    // the enumerated number grammar: integer parts of every length around the digit thresholds and the 32-byte blocks
+    // x well-formed and damaged tails (a raw number always holds a grammatically valid JSON number)
+    for (k, l) in gen::number_grammar().into_iter().enumerate() {
+        if thorough || k % 2 == 0 {
+            lits.push(l);
+        }
+    }
     for lit in lits {
         out.count("rawnumber");
         let h = hex(lit.as_bytes());
